@@ -359,6 +359,93 @@ def rule_r3(chk, p, t):
         r.guard(m.qualname, one)
 
 
+def _const_lb(e):
+    """Value of a constant expression over float literals and numpy's finfo(float) fields, else None."""
+    FINFO = {"resolution": 1e-15, "eps": 2.220446049250313e-16, "tiny": 2.2250738585072014e-308, "smallest_normal": 2.2250738585072014e-308}
+    if isinstance(e, ast.Constant) and isinstance(e.value, (int, float)) and not isinstance(e.value, bool):
+        return float(e.value)
+    if isinstance(e, ast.Attribute) and isinstance(e.value, ast.Call) and call_name(e.value) == "finfo" and e.attr in FINFO:
+        return FINFO[e.attr]
+    if isinstance(e, ast.BinOp) and isinstance(e.op, (ast.Mult, ast.Div, ast.Add)):
+        a, b = _const_lb(e.left), _const_lb(e.right)
+        if a is None or b is None:
+            return None
+        if isinstance(e.op, ast.Mult):
+            return a * b
+        if isinstance(e.op, ast.Add):
+            return a + b
+        return a / b if b else None
+    return None
+
+
+def rule_r4(chk, p, t):
+    r = chk.rule(
+        "C15.R4",
+        "the restart after an event leaves the event's zero zone",
+        3,
+        "event functions report 0 for every time within the absolute tolerance of fpe_equals of their event time; the "
+        "propagation loops restart the integrator `just past` an event. The restart increment must be bounded below "
+        "by that absolute tolerance: one unit in the last place (numpy.spacing) is smaller than it for |t| < 4.5 s and "
+        "is 5e-324 at t == 0, so a burn that starts at the scenario start re-triggers for ever and the run hangs",
+        "termination of the integrator itself",
+    )
+    fe = p.func("resonaate.physics.maths.fpe_equals")
+    rets = [n for n in walk_no_nested(fe.node) if isinstance(n, ast.Return)]
+    require(len(rets) == 1 and isinstance(rets[0].value, ast.Compare), "fpe_equals is not a single comparison", fe.node)
+    cmp_ = rets[0].value
+    tol = unparse(cmp_.comparators[0])
+    absolute = isinstance(cmp_.ops[0], (ast.Lt, ast.LtE)) and "fabs" in unparse(cmp_.left) + "abs" and not any(isinstance(n, ast.Name) and n.id in fe.params for n in ast.walk(cmp_.comparators[0]))
+    if not absolute:
+        raise Undecided(f"fpe_equals is not an absolute-tolerance test (`{unparse(cmp_)}`)", cmp_)
+    r.ok(fe.qualname, f"absolute tolerance `{tol}`", fe.loc())
+    # event functions with a zero zone
+    zoned = []
+    for fi in p.all_functions():
+        if fi.name == "__call__" and fi.module.name.startswith("resonaate.dynamics.integration_events"):
+            for n in walk_no_nested(fi.node):
+                if isinstance(n, ast.If) and any(isinstance(c, ast.Call) and call_name(c) == "fpe_equals" for c in ast.walk(n.test)) and any(isinstance(b, ast.Return) and isinstance(b.value, ast.Constant) and b.value.value in (0, 0.0) for b in n.body):
+                    zoned.append(fi)
+                    break
+    if not zoned:
+        r.trivial("event-functions", "no event function returns 0 inside a tolerance zone")
+        return
+    cel = p.cls(CEL)
+    n_sites = 0
+    for mname in ("propagate", "propagateBulk"):
+        m = cel.methods.get(mname)
+        require(m is not None, f"Celestial.{mname} not found", cel.node)
+        sites = []
+        for n in walk_no_nested(m.node):
+            if isinstance(n, ast.AugAssign) and isinstance(n.op, ast.Add) and isinstance(n.target, ast.Name) and (n.target.id.endswith("_time") or n.target.id == "time"):
+                sites.append((n, n.value, unparse(n.target)))
+            if isinstance(n, ast.Assign) and isinstance(n.targets[0], ast.Name) and (n.targets[0].id.endswith("_time") or n.targets[0].id == "time") and isinstance(n.value, ast.BinOp) and isinstance(n.value.op, ast.Add) and "solution.t" in unparse(n.value.left):
+                sites.append((n, n.value.right, unparse(n.value.left)))
+        for st, inc, base in sites:
+            n_sites += 1
+            cons = f"{m.qualname}:restart"
+            e = inc
+            # through a helper: inline its single return
+            if isinstance(e, ast.Call):
+                for tg in t.callees(e, m):
+                    if hasattr(tg, "node") and isinstance(tg.node, ast.FunctionDef):
+                        rr = [x for x in walk_no_nested(tg.node) if isinstance(x, ast.Return)]
+                        if len(rr) == 1 and rr[0].value is not None:
+                            e = inline_locals(tg, rr[0].value)
+                            break
+            txt = unparse(e)
+            tol_v = _const_lb(cmp_.comparators[0])
+            if tol_v is None:
+                raise Undecided(f"the tolerance `{tol}` of fpe_equals is not a known constant", cmp_)
+            lbs = [_const_lb(a) for a in e.args] if isinstance(e, ast.Call) and call_name(e) in ("max", "maximum", "fmax") else [_const_lb(e)]
+            floor_ok = any(v is not None and v >= tol_v for v in lbs)
+            if floor_ok:
+                r.ok(cons, f"restart at `{base} + {txt}`: at least the zero-zone tolerance", m.loc(st))
+            else:
+                r.violation(cons, f"restart-inside-zero-zone:{txt}", f"after an event the loop restarts at `{base} + {txt}`; {', '.join(sorted({z.cls.name if z.cls else z.name for z in zoned}))} report 0 within {tol} (absolute) of their event time, and this increment is below that for small times (5e-324 at 0): an event at the start of the scenario re-triggers for ever - the step never completes", m.loc(st))
+    if n_sites < 2:
+        r.error("restart-sites", f"{n_sites} restart increments found in Celestial.propagate / propagateBulk (2 confirmed by hand)")
+
+
 def run(chk, p, t):
     chk.explanation = (
         "Static decision of structural necessary conditions of C15: (R1) taint of the burn's end time through the "
@@ -366,10 +453,11 @@ def run(chk, p, t):
         "returns a constant cannot stop a root-finding integrator); (R2) the re-arm / retention predicates are "
         "evaluated on all weak orderings of (start, end, t0 / now) against their interval specification, the restart "
         "loop, callback and registries have their documented shape; (R3) every orbital derivative applies the armed "
-        "thrust. NOT decided: the delivered delta-v."
+        "thrust; (R4) the restart after an event steps beyond the absolute zero zone of the event functions. NOT "
+        "decided: the delivered delta-v."
     )
     chk.assumptions += ["scipy.integrate.solve_ivp stops only on sign changes of a terminal event function or at the end of t_span"]
-    for fn in (rule_r1, rule_r2, rule_r3):
+    for fn in (rule_r1, rule_r2, rule_r3, rule_r4):
         rid = "C15.R" + fn.__name__[-1]
         if not chk.wants(rid):
             continue
